@@ -35,9 +35,10 @@ func checkBurst(h *hist, d *burstDB, c *kit.Case, mode string, readers []*rRec) 
 				continue
 			}
 			seen[rr.Key] = true
-			fr := &rRec{ID: len(readers), Kind: "read", Key: rr.Key, Late: true}
+			fr := &rRec{ID: len(readers), Kind: "read", Key: rr.Key, Late: true, Conn: len(readers) % len(h.sts)}
+			fr.st = h.sts[fr.Conn]
 			fr.Inv = kit.Stamp()
-			fr.Got, fr.err = burstRead(h, d, fr, slotOfKey(h, rr.Key), func() float64 { return 1 }, false)
+			fr.Got, fr.err = burstRead(hctx, h, d, fr, slotOfKey(h, rr.Key), func() float64 { return 1 }, false)
 			fr.Ret = kit.Stamp()
 			readers = append(readers, fr)
 		}
@@ -54,7 +55,7 @@ func checkBurst(h *hist, d *burstDB, c *kit.Case, mode string, readers []*rRec) 
 		}
 	}
 	sort.Slice(qs, func(i, j int) bool { return qs[i].Start < qs[j].Start })
-	wit := map[string]any{"config": h.cfg, "mode": mode, "readers": readers, "queries": qs}
+	wit := map[string]any{"config": h.cfg, "mode": mode, "conns": h.made, "readers": readers, "queries": qs}
 	viol := func(key, what string) { c.Viol(key, what, wit) }
 	if h.envTrouble() > 0 {
 		c.Inconclusive(fmt.Sprintf("network-level driver error during a burst (%v)", h.w.lastEnvErr.Load()))
@@ -64,10 +65,26 @@ func checkBurst(h *hist, d *burstDB, c *kit.Case, mode string, readers []*rRec) 
 
 	for key, g := range d.gauges {
 		if g.Max() > 1 {
-			viol("C06/conc/queries-overlap/"+keyClass(h, key), fmt.Sprintf("%d database queries for %s ran at the same time", g.Max(), key))
+			// which readers ran them: all through one cache / cached conn, or through several
+			where := ""
+			for _, q1 := range qs {
+				for _, q2 := range qs {
+					if q1.Key == key && q2.Key == key && q1.Qid < q2.Qid && q1.Start < q2.End && q2.Start < q1.End &&
+						readers[q1.Owner].Conn != readers[q2.Owner].Conn {
+						where = "/across-conns"
+					}
+				}
+			}
+			viol("C06/conc/queries-overlap/"+keyClass(h, key)+where, fmt.Sprintf("%d database queries for %s ran at the same time", g.Max(), key))
 		}
 	}
-	followers, lateHits := 0, 0
+	followers, lateHits, crossFollowers := 0, 0, 0
+	follower := func(rr *rRec, q *qRec) {
+		followers++
+		if readers[q.Owner].Conn != rr.Conn {
+			crossFollowers++
+		}
+	}
 	if mode == "outage" {
 		for _, rr := range readers {
 			if rr.err == nil {
@@ -98,7 +115,7 @@ func checkBurst(h *hist, d *burstDB, c *kit.Case, mode string, readers []*rRec) 
 				case src.Start > rr.Ret:
 					viol("C06/conc/result-of-later-query", fmt.Sprintf("reader %d returned the result of query %d which started after it returned", rr.ID, src.Qid))
 				case src.Owner != rr.ID && rr.Inv < src.End:
-					followers++
+					follower(rr, src)
 				case src.Owner != rr.ID:
 					lateHits++
 				}
@@ -113,7 +130,7 @@ func checkBurst(h *hist, d *burstDB, c *kit.Case, mode string, readers []*rRec) 
 					// a database error is never cached: only readers overlapping the failing read may see it
 					viol("C06/conc/db-error-served-later", fmt.Sprintf("reader %d (invoked after reader %d had returned) got the error of query %d", rr.ID, q.Owner, q.Qid))
 				case q.Owner != rr.ID:
-					followers++
+					follower(rr, q)
 				}
 			case errors.Is(rr.err, d.nf):
 				ok := false
@@ -121,7 +138,7 @@ func checkBurst(h *hist, d *burstDB, c *kit.Case, mode string, readers []*rRec) 
 					if q.Outcome == "notfound" && slotOfKey(h, q.Key) == slot && q.Start < rr.Ret {
 						ok = true
 						if q.Owner != rr.ID && rr.Inv < q.End {
-							followers++
+							follower(rr, q)
 						}
 					}
 				}
@@ -179,7 +196,7 @@ func checkBurst(h *hist, d *burstDB, c *kit.Case, mode string, readers []*rRec) 
 		}
 	}
 	sort.Slice(evs, func(i, j int) bool { return evs[i].s < evs[j].s })
-	parts := []any{h.cfg.Flavour, mode}
+	parts := []any{h.cfg.Flavour, mode, len(h.sts)}
 	for _, e := range evs {
 		parts = append(parts, e.op)
 	}
@@ -189,5 +206,14 @@ func checkBurst(h *hist, d *burstDB, c *kit.Case, mode string, readers []*rRec) 
 	c.Obs("burst_queries", int64(len(qs)))
 	c.Obs("burst_followers_sharing_a_query", int64(followers))
 	c.Obs("burst_late_readers_served_from_cache", int64(lateHits))
-	c.Sample("burst-"+mode, 1, map[string]any{"config": h.cfg, "mode": mode, "readers": len(readers), "queries": len(qs), "followers": followers, "late_hits": lateHits})
+	if len(h.sts) > 1 {
+		c.Obs("bursts_across_conns", 1)
+		c.Obs("burst_followers_sharing_a_query_across_conns", int64(crossFollowers))
+	}
+	for _, rr := range readers {
+		if cancelledAfterReturn(rr.Ctx) {
+			c.Obs("burst_readers_ctx_cancelled_after_return", 1)
+		}
+	}
+	c.Sample("burst-"+mode, 1, map[string]any{"config": h.cfg, "mode": mode, "readers": len(readers), "queries": len(qs), "followers": followers, "late_hits": lateHits, "conns": h.made, "followers_across_conns": crossFollowers})
 }
